@@ -37,6 +37,11 @@ func runC08(c *core.Ctx) {
 	// run index = base*(c08Positions+4) + slot: slots 0..47 are the cut positions of the base sequence,
 	// the four extra slots are close-during-gathering runs
 	if c.Run%(c08Positions+4) >= c08Positions {
+		if c.Run%(c08Positions+4) == c08Positions+3 && (c.Run/(c08Positions+4))%2 == 0 {
+			// every other base gives one of its four gather slots to a scheduler run
+			runC08Sched(c)
+			return
+		}
 		runC08Gather(c)
 		return
 	}
